@@ -45,7 +45,7 @@ META = {
                    'model that is re-validated against the implementation on every run (whole traces).'),
     'level_note': ('Trusted: Coq kernel; the hand-written model (ASCII names; conversion by type, file system, '
                    'python-dotenv parsing are outside the model and exercised by the harness only); the harness. '
-                   'The full statement fails for prefix + several candidate names (open finding F22): proved on the '
+                   'The full statement fails for prefix + several candidate names (open finding F37): proved on the '
                    'safe region, refuted with a witness.'),
     'rule': ('histories: random universes of 2-4 field base names with typed values, 1-3 classes (all four '
              'key_lookup_with_load settings, prefixes, env_field/json_field/field_to_env_var mappings with 1-3 candidate '
@@ -170,6 +170,13 @@ def conv(tp, raw):
         else:
             items = raw
         return {'list': [c_int(int(x)) for x in items]}
+    if tp == 'list[str]':
+        # comma splitting keeps EVERY segment (stripped): 'a,,b' -> ['a', '', 'b'], 'x,' -> ['x', ''], '' -> ['']
+        if isinstance(raw, str):
+            items = json.loads(raw) if raw.lstrip().startswith('[') else [x.strip() for x in raw.split(',')]
+        else:
+            items = raw
+        return {'list': [{'str': x} for x in items]}
     if tp == 'dict[str,int]':
         if isinstance(raw, str):
             if raw.lstrip().startswith('{'):
@@ -263,7 +270,7 @@ def short(res):
 
 
 def in_f22_region(cls, inst):
-    """open finding F22: non-empty prefix and a field mapped to SEVERAL candidate names."""
+    """open finding F37: non-empty prefix and a field mapped to SEVERAL candidate names."""
     return bool(eff(cls, inst)) and any(isinstance(f.get('explicit'), list) and len(f['explicit']) >= 2
                                         and f['name'] not in inst.get('kwargs', {}) for f in cls['fields'])
 
@@ -275,7 +282,7 @@ WORDS = ['my', 'var', 'name', 'conn', 'debug', 'mode', 'host', 'port', 'key', 'a
          'limit', 'level', 'path', 'flag', 'count', 'size', 'zone', 'id2', 'v1x']
 PFX = ['PFX_', 'pfx_', 'SVC_', 'cfg_']
 PFX_FREE = ['Pfx-', 'svc', 'Cfg_x-', 'PFX']           # only for SCREAMING_SNAKE / SNAKE classes
-TYPES = ['int', 'int', 'bool', 'str', 'str', 'list[int]', 'dict[str,int]', 'Optional[int]', 'datetime', 'float']
+TYPES = ['int', 'int', 'bool', 'str', 'str', 'list[int]', 'list[str]', 'list[str]', 'dict[str,int]', 'Optional[int]', 'datetime', 'float']
 PRIOS = [None, 'SCREAMING_SNAKE', 'SNAKE', 'CAMEL', 'PASCAL']
 
 
@@ -325,7 +332,8 @@ class Universe:
             self.bases.append(w)
         self.types = {b: r.choice(TYPES) for b in self.bases}
         self.alts = {b: ['ALT%d_%s' % (i, '_'.join(b).upper()) if i != 1 else 'alt%d%s' % (i, style(b, 'pascal'))
-                         for i in range(3)] + ['Alt-9-%s' % '-'.join(b)] for b in self.bases}
+                         for i in range(3)] + ['Alt-9-%s' % '-'.join(b), 'Q"%s{0}' % style(b, 'pascal')]
+                     for b in self.bases}
         self.files, self.dirs = {}, {}
         self.used = []            # (name, base) already placed in os.environ / a file: reused to create overlaps
 
@@ -351,6 +359,15 @@ class Universe:
             if as_kw and r.random() < 0.5:
                 return {'py': xs}
             s = r.choice([','.join(map(str, xs)), ' , '.join(map(str, xs)), json.dumps(xs), ' ' + json.dumps(xs)])
+            return {'py': s} if as_kw else s
+        if tp == 'list[str]':
+            # segments may be empty: doubled / leading / trailing separators, a present-but-empty variable
+            k = r.choice([0, 1, 2, 3, 4])
+            xs = [r.choice(['', '', 'u%d' % n, 'w %d' % (n + j), 'x-%d' % j]) for j in range(k)] if k else ['']
+            if as_kw and r.random() < 0.5:
+                return {'py': xs}
+            sep = r.choice([',', ',', ' , ', ', '])
+            s = r.choice([sep.join(xs), sep.join(xs), json.dumps(xs)]) if xs != [''] or r.random() < 0.7 else json.dumps(xs)
             return {'py': s} if as_kw else s
         if tp == 'dict[str,int]':
             d = {'a': n, 'k%d' % r.randrange(3): r.randrange(10)}
@@ -416,7 +433,7 @@ def gen_class(U, name):
             f['default'] = U.default(U.types[b])
         x = r.random()
         if x < 0.3:
-            pool = U.alts[b] + [n for n in spellings('', f['name'], b) if re.match(r'^[A-Za-z0-9_-]+$', n)][:6]
+            pool = U.alts[b] + [n for n in spellings('', f['name'], b) if SAFE.match(n)][:6]
             k = r.choice([1, 1, 2, 3])
             names = r.sample(pool, k)
             via = r.choice(['env_field', 'json_field', 'meta'])
@@ -431,6 +448,10 @@ def gen_class(U, name):
     if r.random() < 0.12:
         c['reload_env'] = True
     return c
+
+
+SAFE = re.compile(r'^[A-Za-z0-9_-]+$')            # usable as dotenv key / secrets file name
+ENV_OK = re.compile(r'^[A-Za-z0-9_"{}.-]+$')        # usable as os.environ name (no quote ', backslash, =)
 
 
 def candidate_names(U, classes, extra_prefixes=()):
@@ -451,7 +472,7 @@ def candidate_names(U, classes, extra_prefixes=()):
                 out.append((n, b))
     seen, uniq = set(), []
     for n, b in out:
-        if n not in seen and re.match(r'^[A-Za-z0-9_-]+$', n):
+        if n not in seen and ENV_OK.match(n):
             seen.add(n)
             uniq.append((n, b))
     return uniq
@@ -469,10 +490,56 @@ def gen_env(U, cands, density):
     return env
 
 
+def tier_names(prio, key):
+    """the exact spellings a priority tries, in order (deduplicated), or None outside the reference's domain"""
+    if prio in (None, 'SCREAMING_SNAKE'):
+        names = [key.upper(), key]
+    elif prio == 'SNAKE':
+        names = [key, key.upper()]
+    else:
+        if not SIMPLE_KEY.match(key):
+            return None
+        names = [key, ref_snake(key).upper(), ref_snake(key)]
+    return list(dict.fromkeys(names))
+
+
+def tier_combo(U, c, env, p_field=0.6):
+    """For fields looked up by name: make a random SUBSET of {each exact tier spelling, two spellings only the
+    cleaned tier reaches} coexist with different values and remove the rest, so that over many cases every
+    combination of present / absent tiers occurs."""
+    r = U.r
+    prefix = c.get('prefix') or ''
+    for f in c['fields']:
+        if f.get('explicit') or r.random() > p_field:
+            continue
+        b = tuple(f['base'])
+        key = prefix + f['name']
+        exact = tier_names(c.get('prio'), key)
+        if exact is None or not all(SAFE.match(n) for n in exact):
+            continue
+        reach = [n for n in spellings(prefix, f['name'], b)
+                 if SAFE.match(n) and n not in exact and ref_clean(n) == ref_clean(key)]
+        slots = exact + r.sample(reach, min(len(reach), r.choice([0, 1, 2])))
+        mask = [r.random() < 0.5 for _ in slots]
+        if not any(mask):
+            mask[r.randrange(len(mask))] = True
+        for n, m in zip(slots, mask):
+            if m:
+                env[n] = U.value(U.types[b])
+                U.used.append((n, b))
+            else:
+                env.pop(n, None)
+        for n in reach:
+            if n not in slots and r.random() < 0.7:
+                env.pop(n, None)
+
+
 def gen_file(U, cands, kind):
     r = U.r
     k = r.choice([1, 2, 2, 3, 4])
-    picks = [r.choice(U.used) if U.used and r.random() < 0.5 else r.choice(cands) for _ in range(k)]
+    used = [x for x in U.used if SAFE.match(x[0])]
+    safe = [x for x in cands if SAFE.match(x[0])]
+    picks = [r.choice(used) if used and r.random() < 0.5 else r.choice(safe) for _ in range(k)]
     U.used.extend(picks)
     content = [[n, U.value(U.types[b])] for n, b in picks]
     if kind == 'dir':
@@ -518,6 +585,8 @@ def gen_history(r, hid, long=False):
         if r.random() < 0.12:
             c['secrets'] = [gen_file(U, cands, 'dir')]
     os0 = gen_env(U, cands, r.choice([0.03, 0.08, 0.15]))
+    if r.random() < 0.6:
+        tier_combo(U, r.choice(classes), os0)
     cur = dict(os0)
     ops, defined = [], set()
 
@@ -539,6 +608,20 @@ def gen_history(r, hid, long=False):
             n = r.choice(cands)[0]
         ops.append({'op': 'del', 'k': n}); cur.pop(n, None)
 
+    def do_rename():
+        """delete A and add B (the number of variables is unchanged), A preferably a variable a field can reach"""
+        names = [n for n, _ in cands]
+        live = [n for n in cur if n in names] or sorted(cur)
+        fresh = [(n, b) for n, b in cands if n not in cur]
+        if not live or not fresh:
+            return do_set()
+        a = r.choice(sorted(live))
+        n, b = r.choice(fresh)
+        v = U.value(U.types[b])
+        ops.append({'op': 'del', 'k': a}); cur.pop(a, None)
+        ops.append({'op': 'set', 'k': n, 'v': v}); cur[n] = v
+        U.used.append((n, b))
+
     if r.random() < 0.4:
         # F13 shape: two names that only the cleaned tier reaches, the winner is deleted afterwards
         ci = r.randrange(ncls)
@@ -550,7 +633,7 @@ def gen_history(r, hid, long=False):
             p = c.get('prefix') or ''
             key = p + f['name']
             reach = [n for n in spellings(p, f['name'], b)
-                     if re.match(r'^[A-Za-z0-9_-]+$', n) and n not in (key, key.upper(), ref_snake(key), ref_snake(key).upper())
+                     if SAFE.match(n) and n not in (key, key.upper(), ref_snake(key), ref_snake(key).upper())
                      and ref_clean(n) == ref_clean(key)]
             if len(reach) >= 2:
                 a, bb = r.sample(reach, 2)
@@ -563,10 +646,15 @@ def gen_history(r, hid, long=False):
     n_ops = r.choice([3, 5, 7, 9, 11] if not long else [14, 20, 28])
     for _ in range(n_ops):
         x = r.random()
-        if x < 0.33:
+        if x < 0.27:
             do_set()
-        elif x < 0.5:
+        elif x < 0.4:
             do_del()
+        elif x < 0.55 and defined:
+            do_rename()
+            if r.random() < 0.7:
+                ci = r.choice(sorted(defined))
+                ops.append(gen_inst(U, ci, classes[ci], cands, reload=True))
         else:
             ci = r.randrange(ncls)
             ensure(ci)
@@ -588,6 +676,8 @@ def gen_pure(r, pid):
     if r.random() < 0.1:
         c['secrets'] = [gen_file(U, cands, 'dir')]
     os0 = gen_env(U, cands, r.choice([0.02, 0.05, 0.1, 0.2]))
+    if r.random() < 0.6:
+        tier_combo(U, c, os0)
     inst = gen_inst(U, 0, c, cands, reload=True)
     p = {'id': pid, 'os0': os0, 'files': U.files, 'dirs': U.dirs,
          'ops': [{'op': 'class', 'id': 0, 'cls': c}, inst]}
@@ -914,8 +1004,7 @@ def pristine_payload(h):
     return {'os0': timeline[last], 'files': h['files'], 'dirs': h['dirs'], 'ops': [cdef, o]}
 
 
-F21_ID = 'F21-C18-env-var-name-splice'
-F22_ID = 'F22-env-prefix-tuple-names'
+F22_ID = 'F37-env-prefix-tuple-names'
 
 F21_WITNESS = {'os0': {'a"b': 'found'}, 'files': {}, 'dirs': {}, 'ops': [
     {'op': 'class', 'id': 0, 'cls': {'name': 'F21W', 'fields': [
@@ -951,7 +1040,7 @@ def witness_fails(ctx, w):
 def run(ctx):
     quick = ctx.tier == 'quick'
     # ---- listed findings ---------------------------------------------------------------------
-    for fid, w in ((F21_ID, F21_WITNESS), (F22_ID, F22_WITNESS)):
+    for fid, w in ((F22_ID, F22_WITNESS),):
         if ctx.finding(fid) is not None:
             fails, what = witness_fails(ctx, w)
             ctx.count(1, key='witness:' + fid)
@@ -1048,8 +1137,9 @@ def replay(ctx, obj):
             pr = ctx.impl('c18', pristine_payload(sub))['results'][-1]
             print('pristine replay of op %d: %s' % (obj['op_index'], short(pr)))
         return bool(ok)
-    if obj.get('finding') in (F21_ID, F22_ID, 'F21', 'F22'):
-        fails, what = witness_fails(ctx, F21_WITNESS if obj['finding'].startswith('F21') else F22_WITNESS)
+    if obj.get('finding') in (F22_ID, 'F21', 'F37'):
+        # F21 (fixed by daee07e): the class statement must succeed and the variable be found
+        fails, what = witness_fails(ctx, F21_WITNESS if obj['finding'] == 'F21' else F22_WITNESS)
         print('witness %s: %s' % (obj['finding'], what or 'behaves as documented'))
         return not fails
     if obj.get('finding') == 'F13':
